@@ -13,7 +13,9 @@ CONSTANTS Conns, MaxItems, Scale,
           MaxFrame,     \* NNG_OPT_WS_RECVMAXFRAME in units (largest single frame)
           FragSize,     \* NNG_OPT_WS_SENDMAXFRAME in units (0: never fragment)
           Units,        \* payload sizes of data frames, in units
-          Dir           \* "in": PULL socket, the peer writes frames; "out": PUSH socket, the socket sends
+          Dir,          \* "in": PULL socket, the peer writes frames; "out": PUSH socket, the socket sends
+          Role          \* "server": the socket listens, the driver is the WebSocket client; "client": the socket dials, the driver is
+                        \* the WebSocket server (it accepts the TCP connection, answers the upgrade request, must not mask)
 
 VARIABLES phase,        \* per connection: "none" | "http" | "ws" | "closed"
           inmsg, acc,   \* per connection: a fragmented message is being received; its bytes so far
@@ -24,8 +26,21 @@ vars == <<phase, inmsg, acc, delivered, nitems, lastAct>>
 Init == /\ phase = [c \in Conns |-> "none"] /\ inmsg = [c \in Conns |-> FALSE] /\ acc = [c \in Conns |-> 0]
         /\ delivered = <<>> /\ nitems = 0 /\ lastAct = [a |-> "init"]
 
-Connect(c) == /\ phase[c] = "none" /\ phase' = [phase EXCEPT ![c] = "http"]
+Connect(c) == /\ Role = "server" /\ phase[c] = "none" /\ phase' = [phase EXCEPT ![c] = "http"]
               /\ lastAct' = [a |-> "conn", c |-> c, out |-> [rv |-> "ok"]] /\ UNCHANGED <<inmsg, acc, delivered, nitems>>
+\* client role: the dialer (re)connects whenever it has no connection; the driver accepts and reads the upgrade request, which
+\* must be well-formed (request line, Host, Upgrade, Connection, 24-character key, version 13, sub-protocol, CRLF line ends)
+Accept(c) == /\ Role = "client" /\ phase[c] = "none" /\ \A d \in Conns : phase[d] \in {"none", "closed"}
+             /\ phase' = [phase EXCEPT ![c] = "http"]
+             /\ lastAct' = [a |-> "accept", c |-> c, out |-> [rv |-> "ok", wf |-> TRUE]] /\ UNCHANGED <<inmsg, acc, delivered, nitems>>
+\* the driver's answer to the upgrade request: anything but a correct 101 makes the client drop the connection
+RespKinds == {"ok", "bad_accept", "no_accept", "no_upgrade", "no_connection", "upgrade_case", "wrong_proto", "no_proto",
+              "status200", "status400", "status404", "garbage", "short_close"}
+Resp(c, k) ==
+  /\ Role = "client" /\ phase[c] = "http" /\ nitems < MaxItems /\ nitems' = nitems + 1
+  /\ phase' = [phase EXCEPT ![c] = IF k = "ok" THEN "ws" ELSE "closed"]
+  /\ lastAct' = [a |-> "resp", c |-> c, k |-> k, hc |-> (k # "ok"), out |-> [closed |-> (k # "ok")]]
+  /\ UNCHANGED <<inmsg, acc, delivered>>
 
 \* ---------------------------------------------------------------- HTTP upgrade
 \* kind -> <<status, connection closed afterwards>>.  Error responses keep the connection (HTTP/1.1 persistence) unless the
@@ -44,7 +59,7 @@ HttpResult(k) ==
 HttpKinds == {"ok", "http10", "no_host", "no_upgrade", "wrong_proto", "no_proto", "bad_key", "bad_wsver", "wrong_path", "post",
               "bad_version", "chunked", "garbage", "short_close"}
 Http(c, k) ==
-  /\ phase[c] = "http" /\ nitems < MaxItems /\ nitems' = nitems + 1
+  /\ Role = "server" /\ phase[c] = "http" /\ nitems < MaxItems /\ nitems' = nitems + 1
   /\ LET r == HttpResult(k) IN
        /\ phase' = [phase EXCEPT ![c] = IF r[2] THEN "closed" ELSE IF r[1] = 101 THEN "ws" ELSE "http"]
        /\ lastAct' = [a |-> "http", c |-> c, k |-> k, hc |-> r[2], out |-> [status |-> r[1], wf |-> TRUE, closed |-> r[2]]]
@@ -58,7 +73,7 @@ Verdict(c, f, bytes) ==
   IF NonMinimal(f.enc, bytes) THEN <<"fail", 1002>>
   ELSE IF MaxFrame > 0 /\ bytes > MaxFrame * Scale THEN <<"fail", 1009>>
   ELSE IF RecvMax > 0 /\ acc[c] + bytes > RecvMax * Scale THEN <<"fail", 1009>>
-  ELSE IF ~f.masked THEN <<"fail", 1002>>                      \* a client must mask
+  ELSE IF f.masked # (Role = "server") THEN <<"fail", 1002>>   \* a client must mask, a server must not
   ELSE IF f.rsv # 0 THEN <<"fail", 1002>>
   ELSE IF f.op = OpCont THEN (IF ~inmsg[c] THEN <<"fail", 1002>> ELSE IF f.fin THEN <<"deliver", 0>> ELSE <<"more", 0>>)
   ELSE IF f.op = OpText THEN <<"fail", 1003>>                  \* SP messages are binary
@@ -83,24 +98,28 @@ Frame(c, f) ==
                        out |-> [got |-> IF v[1] = "deliver" THEN <<total>> ELSE <<>>,
                                 replies |-> IF v[1] = "pong" THEN <<<<OpPong, TRUE>>>> ELSE IF v[1] \in {"fail", "bye"} THEN <<<<OpClose, v[2]>>>> ELSE <<>>,
                                 wf |-> TRUE, closed |-> (v[1] \in {"fail", "bye"})]]
-DataFrames == [fin : BOOLEAN, op : {OpCont, OpBin}, masked : {TRUE}, rsv : {0}, enc : {0}, n : Units]
-OddFrames == [fin : {TRUE}, op : {OpBin}, masked : {FALSE}, rsv : {0}, enc : {0}, n : {1}]                  \* unmasked
-             \cup [fin : {TRUE}, op : {OpBin}, masked : {TRUE}, rsv : {1, 4}, enc : {0}, n : {1}]            \* reserved bits
-             \cup [fin : {TRUE}, op : {OpBin}, masked : {TRUE}, rsv : {0}, enc : {1, 2}, n : {0, 1}]         \* length encodings
-             \cup [fin : {TRUE}, op : {OpText, 3, 11}, masked : {TRUE}, rsv : {0}, enc : {0}, n : {1}]       \* text, reserved opcodes
-             \cup [fin : BOOLEAN, op : {OpPing, OpPong}, masked : {TRUE}, rsv : {0}, enc : {0}, n : {0, 2, 125, 126}]
-             \cup [fin : {TRUE}, op : {OpClose}, masked : {TRUE}, rsv : {0}, enc : {0}, n : {0, 2}]
+M == (Role = "server")      \* the mask bit of a well-formed frame from the peer
+DataFrames == [fin : BOOLEAN, op : {OpCont, OpBin}, masked : {M}, rsv : {0}, enc : {0}, n : Units]
+OddFrames == [fin : {TRUE}, op : {OpBin}, masked : {~M}, rsv : {0}, enc : {0}, n : {1}]                     \* wrong mask bit
+             \cup [fin : {TRUE}, op : {OpBin}, masked : {M}, rsv : {1, 4}, enc : {0}, n : {1}]            \* reserved bits
+             \cup [fin : {TRUE}, op : {OpBin}, masked : {M}, rsv : {0}, enc : {1, 2}, n : {0, 1}]         \* length encodings
+             \cup [fin : {TRUE}, op : {OpText, 3, 11}, masked : {M}, rsv : {0}, enc : {0}, n : {1}]       \* text, reserved opcodes
+             \cup [fin : BOOLEAN, op : {OpPing, OpPong}, masked : {M}, rsv : {0}, enc : {0}, n : {0, 2, 125, 126}]
+             \cup [fin : {TRUE}, op : {OpClose}, masked : {M}, rsv : {0}, enc : {0}, n : {0, 2}]
 
 \* ---------------------------------------------------------------- the socket sends (Dir = "out")
 Send(c, n) ==
   /\ Dir = "out" /\ phase[c] = "ws" /\ nitems < MaxItems /\ nitems' = nitems + 1
-  /\ \A d \in Conns \ {c} : phase[d] \in {"none", "http"}        \* the only connection that ever completed the upgrade
+  \* server role: the only connection that ever completed the upgrade (a lost one may not have been noticed yet);
+  \* client role: the dialer has one connection at a time and tears the old one down itself
+  /\ \A d \in Conns \ {c} : IF Role = "server" THEN phase[d] \in {"none", "http"} ELSE phase[d] # "ws"
   /\ LET bytes == n * Scale  fs == FragSize * Scale
          nfrag == IF fs = 0 \/ bytes <= fs THEN 1 ELSE (bytes + fs - 1) \div fs
      IN lastAct' = [a |-> "send", c |-> c, n |-> n, ser |-> nitems + 1, out |-> [rv |-> "ok", units |-> n, ok |-> TRUE, nfrag |-> nfrag]]
   /\ UNCHANGED <<phase, inmsg, acc, delivered>>
 
-Next == \E c \in Conns : Connect(c) \/ (\E k \in HttpKinds : Http(c, k)) \/ (\E f \in DataFrames \cup OddFrames : Frame(c, f))
+Next == \E c \in Conns : Connect(c) \/ Accept(c) \/ (\E k \in HttpKinds : Http(c, k)) \/ (\E k \in RespKinds : Resp(c, k))
+                         \/ (\E f \in DataFrames \cup OddFrames : Frame(c, f))
                          \/ (\E n \in Units : Send(c, n))
 Spec == Init /\ [][Next]_vars
 
